@@ -257,16 +257,41 @@ def make_programs(rng, nodes, links, reqs):
     return progs
 
 
-def single_request_scenario(sc, i):
-    """the scenario reduced to request i alone, FIFO schedule (for shrinking)"""
-    r = dict(sc["reqs"][i])
-    link = sc["links"][r["link"]]
-    r["link"] = 0
-    a, _, b, _ = link
-    creator, receiver = (a, b) if r["dir"] == 0 else (b, a)
-    return {"id": "%s/req%d" % (sc["id"], i), "nodes": sc["nodes"], "links": [link], "reqs": [r],
-            "progs": {n: ([[["c", 0]]] if n == creator else [[["r", 0]]] if n == receiver else []) for n in sc["nodes"]},
-            "sched": {"kind": "fifo", "seed": 0}, "starts": {n: 0 for n in sc["nodes"]}, "rng": sc["rng"]}
+def sub_scenario(sc, keep, fifo):
+    """the scenario reduced to the requests `keep` (indices), each node's program projected onto them; with
+    fifo=True all hosts start at once under the FIFO schedule (for shrinking)"""
+    keep = list(keep)
+    new_index = {ri: k for k, ri in enumerate(keep)}
+    link_ids = sorted({sc["reqs"][ri]["link"] for ri in keep})
+    reqs = []
+    for ri in keep:
+        r = dict(sc["reqs"][ri])
+        r["link"] = link_ids.index(r["link"])
+        reqs.append(r)
+    progs = {}
+    for n in sc["nodes"]:
+        subs = []
+        for sub in sc["progs"].get(n, []):
+            ops = [[k, new_index[ri]] for k, ri in sub if ri in new_index]
+            if ops:
+                subs.append(ops)
+        progs[n] = subs
+    return {"id": "%s/reqs%s%s" % (sc["id"], keep, "/fifo" if fifo else ""), "nodes": sc["nodes"],
+            "links": [sc["links"][i] for i in link_ids], "reqs": reqs, "progs": progs,
+            "sched": {"kind": "fifo", "seed": 0} if fifo else sc["sched"],
+            "starts": {n: 0 for n in sc["nodes"]} if fifo else sc["starts"], "rng": sc["rng"]}
+
+
+def shrink_candidates(sc):
+    n = len(sc["reqs"])
+    for i in range(n):
+        yield sub_scenario(sc, [i], True)
+    for i in range(n):
+        for j in range(i + 1, n):
+            yield sub_scenario(sc, [i, j], True)
+    for i in range(n):
+        for j in range(i + 1, n):
+            yield sub_scenario(sc, [i, j], False)
 
 
 # --------------------------------------------------------------------------
@@ -348,6 +373,37 @@ class Runner:
             B.serialize_request = orig
         return out
 
+    def weights_cases(self, thorough):
+        """[(RandomBasis name, p1, p2, observation)] from the real `_sample_basis_choice` of a live executioner"""
+        from netqasm.sdk.shared_memory import SharedMemoryManager
+        from netqasm.qlink_compat import RandomBasis
+        S = self.S
+        SharedMemoryManager.reset_memories()
+        nq = S.NqNet(["Alice", "Bob"], rng=random.Random(1))
+        ex = nq.facs["Alice"].backend._executor
+        seen = []
+
+        def ch(population, weights=None, **kw):
+            seen.append(([p.name for p in population], [int(w) for w in weights]))
+            return [population[0]]
+        nq._EX.random = S._RandomProxy(nq.rng, choices=ch)
+        cases = []
+        step = 1 if thorough else 3
+        grid2 = sorted(set(range(-5, 530, step)) | {0, 1, 127, 128, 255, 256, 257, 511, 512, -1, -256})
+        g3 = sorted(set(range(0, 300, 7 if thorough else 23)) | {0, 1, 128, 200, 255, 256, 257, 300, 511, -1})
+        todo = [("NONE", 5, 9)] + [(rb, p, 13) for rb in ("XZ", "CHSH") for p in grid2] + \
+               [("XYZ", p1, p2) for p1 in g3 for p2 in g3]
+        for rb, p1, p2 in todo:
+            del seen[:]
+            try:
+                b = ex._sample_basis_choice(random_basis_set=RandomBasis[rb], probability_dist_spec=[p1, p2])
+                o = "fixed %s" % b.name if not seen else "choose %s %s" % (",".join(seen[0][0]), ",".join(map(str, seen[0][1])))
+            except Exception as e:
+                o = "err %s" % type(e).__name__
+            cases.append((rb, p1, p2, o))
+        nq.close()
+        return cases
+
     def make_sched(self, sd):
         S = self.S
         k = sd["kind"]
@@ -384,6 +440,7 @@ class Runner:
         EX.random = S._RandomProxy(nq.rng, choices=my_choices)
         curpair, currecv = {}, {}
         reqlog = {n: [] for n in nodes}     # per node: request records in program order
+        sample_log = []                     # (RandomBasis name, spec, what random.choices received or None, basis)
 
         for n in nodes:
             ex = nq.facs[n].backend._executor
@@ -391,7 +448,17 @@ class Runner:
 
             def wrap_exec(n=n, ex=ex):
                 o_create, o_recv, o_epr, o_erecv = ex._do_create_epr, ex._do_recv_epr, ex.cmd_epr, ex.cmd_epr_recv
-                o_meas, o_newid = ex._measure_epr_qubit, ex._get_new_create_id
+                o_meas, o_newid, o_sample = ex._measure_epr_qubit, ex._get_new_create_id, ex._sample_basis_choice
+
+                def sample(random_basis_set, probability_dist_spec):
+                    k = len(choices_log)
+                    b = o_sample(random_basis_set=random_basis_set, probability_dist_spec=probability_dist_spec)
+                    from netqasm.qlink_compat import RandomBasis as _RB
+                    rbn = random_basis_set.name if hasattr(random_basis_set, "name") else _RB(random_basis_set).name
+                    sample_log.append((rbn,
+                                       [int(x) for x in probability_dist_spec],
+                                       choices_log[k] if len(choices_log) > k else None, b.name))
+                    return b
 
                 def do_create(**kw):
                     reqlog[n].append({"role": "c", "addr": kw["ent_results_array_address"], "remote": kw["remote_node_id"],
@@ -436,7 +503,7 @@ class Runner:
                     currecv[n] = {"sock": epr_socket_id, "qid": qubit_id, "req": reqlog[n][-1]}
                     return o_erecv(epr_socket_id=epr_socket_id, qubit_id=qubit_id)
                 ex._do_create_epr, ex._do_recv_epr, ex.cmd_epr, ex.cmd_epr_recv = do_create, do_recv, cmd_epr, cmd_epr_recv
-                ex._measure_epr_qubit, ex._get_new_create_id = meas, new_id
+                ex._measure_epr_qubit, ex._get_new_create_id, ex._sample_basis_choice = meas, new_id, sample
             wrap_exec()
 
             def wrap_node(n=n, node=node):
@@ -506,7 +573,8 @@ class Runner:
         joint = nq.joint_state()
         inflight = {n: {"typ": r["typ"], "remote": names.get(r["remote"]), "sock": r["sock"]}
                     for n, r in curpair.items() if r["done"] is None}
-        obs = {"ids": ids, "names": names, "ev": ev, "inflight": inflight, "locks": nq.lock_flags(), "choices": choices_log, "reqlog": reqlog, "replies": replies,
+        obs = {"ids": ids, "names": names, "ev": ev, "inflight": inflight, "locks": nq.lock_flags(),
+               "samples": sample_log, "choices": choices_log, "reqlog": reqlog, "replies": replies,
                "snap": snap, "joint": joint, "hang": hang, "steps": steps,
                "unfinished": [n for n in hosts if hosts[n]["done"] < len(hosts[n]["msgs"])],
                "errors": [(lv, lg, tx.split("\n")[0]) for (lv, lg, tx) in nq.pylog if lv == "ERROR"],
@@ -766,6 +834,13 @@ def tie_lines(sc, obs):
                 vals = arr[n].get(req["addr"])
                 want = mask(vals[k * OK_FIELDS:(k + 1) * OK_FIELDS]) if vals and len(vals) >= (k + 1) * OK_FIELDS else None
                 exp.append(("got " + want if want is not None else None, "receiver result %d of %s" % (k, n)))
+    # what _sample_basis_choice handed to random.choices
+    for rb, spec, ch, basis in obs["samples"]:
+        lines.append("sample %s %d %d" % (rb, spec[0], spec[1]))
+        if ch is None:
+            exp.append(("fixed %s" % basis, "basis without a draw"))
+        else:
+            exp.append(("choose %s %s" % (",".join(ch[0]), ",".join(str(int(w)) for w in ch[1])), "weights of random.choices"))
     # queues and the final picture
     for n in sc["nodes"]:
         for s, ln in obs["snap"][n]["recv_epr"].items():
@@ -811,6 +886,7 @@ def run(ctx):
     runner = Runner()
     lines, exp = [], []
     notes = {}
+    nkey = {}
 
     def judge(sc, obs, tag):
         bad = []
@@ -840,7 +916,7 @@ def run(ctx):
             res.count("req:%s" % r["typ"] + (":%s/%s" % (r["rbl"], r["rbr"]) if r["typ"] == "M" else ""))
             res.count("pairs", r["n"])
         res.count("empty-polls", sum(1 for e in obs["ev"] if e[0] == "recv" and e[4] is None))
-        res.case({k: sc[k] for k in ("nodes", "links", "reqs", "progs", "sched", "starts")}, nontrivial=not bad or True)
+        res.case({k: sc[k] for k in ("nodes", "links", "reqs", "progs", "sched", "starts")}, nontrivial=True)
         if bad:
             seen = set()
             for key, what in bad:
@@ -848,9 +924,10 @@ def run(ctx):
                     continue
                 seen.add(key)
                 rep = {"scenario": sc, "what": what}
-                # shrink: a single request under FIFO that fails the same way
-                for i in range(len(sc["reqs"])):
-                    s1 = single_request_scenario(sc, i)
+                # shrink: one or two of the requests, under FIFO if possible, failing the same way
+                nkey[key] = nkey.get(key, 0) + 1
+                cands = shrink_candidates(sc) if nkey[key] <= 3 and (len(sc["reqs"]) > 1 or sc["sched"]["kind"] != "fifo") else []
+                for s1 in cands:
                     o1 = execute(s1)
                     if "crash" in o1:
                         continue
@@ -877,7 +954,7 @@ def run(ctx):
                 capacity_case(runner, res, sc, inp["capacity"])
             else:
                 one(sc, "replay")
-        finish_tie(ctx, res, lines, exp)
+        finish_tie(ctx, res, lines, exp, table)
         return res
 
     # ---- fixed corpus
@@ -886,42 +963,59 @@ def run(ctx):
     # ---- receiver at capacity (F13; C11's subject, keyed separately)
     capacity_case(runner, res, capacity_scenario(), {"max_qubits": 3, "fill": {"Bob": 3}})
     # ---- random scenarios
-    nsc = ctx.scale(110, 1500)
+    nsc = ctx.scale(600, 9000)
     for i in range(nsc):
         one(gen_scenario(ctx.rng, i, ctx.thorough), "random")
     # ---- exhaustive tables against the model
     if ctx.lean_ok:
-        table_queries(lines, exp, table)
-    finish_tie(ctx, res, lines, exp)
+        table_queries(runner, lines, exp, table, ctx.thorough)
+    finish_tie(ctx, res, lines, exp, table)
     for k, v in sorted(notes.items()):
         if k == "seq-shared-across-directions":
             res.notes.append("%d socket(s) carried pairs of both directions with the SAME sequence number (the counter is "
                              "per creator; such results differ in the directionality flag only)" % v)
         if k == "negative-weight":
             res.notes.append("%d call(s) of random.choices received a negative weight (p1 + p2 > 256 after the %% 256 "
-                             "reduction; host-controlled input, see theorem basis_weights_three_negative)" % v)
+                             "reduction; host-controlled input; theorems basis_weights, basis_weights_three_negative)" % v)
         res.count("note:" + k, v)
     return res
 
 
-def finish_tie(ctx, res, lines, exp):
+def finish_tie(ctx, res, lines, exp, table):
     if not (ctx.lean_ok and lines):
         return
     out = core.lean_run("epr", lines)
     broken = set()
+    md_seen = {}
     for i, (got, (want, what, sc, base)) in enumerate(zip(out, exp)):
         res.traces += 1
+        if isinstance(what, tuple) and what[0] == "md":
+            # the model's outcome table against the matrices
+            try:
+                o1, o2 = (int(x) for x in got.split())
+            except ValueError:
+                res.tie_break("Epr model: measure-directly table", lines[i], got, "two outcomes")
+                continue
+            md_seen.setdefault((what[1], what[2]), set()).add((o1, o2))
+            continue
         if want is None:
             continue
         sid = id(sc)
         if got != want and sid not in broken:
             broken.add(sid)
-            res.tie_break("Epr model vs executioner/virtual node: " + what,
+            res.tie_break("Epr model vs executioner/virtual node: %s" % (what,),
                           {"scenario": sc, "line": lines[i], "history": lines[base:i + 1][-12:]}, got, want)
+    for k, seen in md_seen.items():
+        if seen != table[k]:
+            res.tie_break("Epr model: measure-directly outcomes in bases %s/%s vs Phi+ computed with matrices" % k,
+                          "md %s %s *" % k, sorted(seen), sorted(table[k]))
 
 
-def table_queries(lines, exp, table):
-    """exhaustive finite tables: weights for every reduced spec class sample, outcome table of the model"""
+def table_queries(runner, lines, exp, table, thorough):
+    """finite tables.  (1) the model's measure-directly outcomes for all bases and coins, judged against the
+    4x4-matrix table of this module (tag "md"); (2) the REAL `_sample_basis_choice` / `_get_probability_weights`
+    on a grid of specs (every p for two choices, a grid incl. all boundaries for three), what it hands to
+    random.choices compared with the model's `sample`."""
     sc = {"id": "tables"}
     base = len(lines)
     for b1 in "XYZ":
@@ -929,12 +1023,10 @@ def table_queries(lines, exp, table):
             for c1 in (0, 1):
                 for c2 in (0, 1):
                     lines.append("md %s %s %d %d" % (b1, b2, c1, c2))
-                    exp.append((None, "md", sc, base))
-    return
-
-
-def md_model_check(res, out_lines, lines, table):
-    pass
+                    exp.append((None, ("md", b1, b2), sc, base))
+    for rb, p1, p2, seen in runner.weights_cases(thorough):
+        lines.append("sample %s %d %d" % (rb, p1, p2))
+        exp.append((seen, "real _sample_basis_choice(%s, [%d, %d])" % (rb, p1, p2), {"id": "weights %s %d %d" % (rb, p1, p2)}, base))
 
 
 def corpus():
@@ -972,6 +1064,10 @@ def corpus():
                       {"Alice": [[["c", 0], ["r", 1]]], "Bob": [[["c", 1], ["r", 0]]]},
                       sched={"kind": "random", "seed": 5}))
         k += 1
+    # the same, create-and-keep, both hosts starting at once under FIFO: the two send_epr_half cross (finding F8)
+    out.append(sc(k, ["Alice", "Bob"], ab, [{"link": 0, "dir": 0, "n": 1, "typ": "K"}, {"link": 0, "dir": 1, "n": 1, "typ": "K"}],
+                  {"Alice": [[["c", 0], ["r", 1]]], "Bob": [[["c", 1], ["r", 0]]]}))
+    k += 1
     # three nodes, two socket pairs into one node, receiver starts late
     out.append(sc(k, ["Alice", "Bob", "Charlie"], [["Alice", 0, "Bob", 0], ["Charlie", 2, "Bob", 1]],
                   [{"link": 0, "dir": 0, "n": 2, "typ": "K"}, {"link": 1, "dir": 0, "n": 3, "typ": "K"},
